@@ -1226,7 +1226,7 @@ class Corr:
                     newcontent.append(self.content[t] / y)
             return Corr(newcontent, prange=self.prange)
 
-        elif isinstance(y, (int, float)):
+        elif isinstance(y, (int, float, complex)):
             if y == 0:
                 raise ValueError('Division by zero will return undefined correlator')
             newcontent = []
@@ -1334,6 +1334,9 @@ class Corr:
         return self * y
 
     def __rtruediv__(self, y):
+        if isinstance(y, (complex, CObs)):
+            newcontent = [None if _check_for_none(self, item) else y / item for item in self.content]
+            return Corr(newcontent, prange=self.prange)
         return (self / y) ** (-1)
 
     @property
